@@ -41,11 +41,13 @@ Definition decode_rulefile (v : val) : gmatcher :=
   gi_matched (as_bytes (fld 0 v)) (map decode_rule (as_list (fld 1 v))).
 Definition rulefile_rules (v : val) : list rule := map decode_rule (as_list (fld 1 v)).
 
-(* dirinfo = (path custom dotignore gitignore exclude has_dotgit) *)
+(* dirinfo = (path custom dotignore gitignore exclude dotgit), dotgit: 0 absent, 1 directory, 2 file *)
+Definition decode_dotgit (v : val) : dotgit :=
+  match as_N v with 0%N => GitAbsent | 1%N => GitDir | _ => GitFile end.
 Definition decode_dirinfo (v : val) : dirinfo :=
   {| di_path := as_bytes (fld 0 v); di_custom := decode_rulefile (fld 1 v); di_dotignore := decode_rulefile (fld 2 v);
      di_gitignore := decode_rulefile (fld 3 v); di_exclude := decode_rulefile (fld 4 v);
-     di_has_dotgit := as_bool (fld 5 v) |}.
+     di_dotgit := decode_dotgit (fld 5 v) |}.
 
 (* tnode = (0 name) | (1 name dirinfo kids) *)
 Fixpoint decode_tnode (fuel : nat) (v : val) : tnode :=
